@@ -13,6 +13,8 @@ CHECKS = {
          "Lean 4 proof (selection = positional selection under injective keys) + differential correspondence", "5/C20"),
  "C19": ("Lean theorems for every check function: element_wise = vectorised map; ignore_na hides nulls / verdict independent of null rows; n_failure_cases keeps the verdict and truncates to a prefix; raise_warning never fails and warns iff the check would fail; groupby hands exactly the requested groups; aliases = canonical built-ins over the table regenerated from api/checks.py. Differential: Check(...)(series) results, values shown to the function and validate outcomes vs the backend model, metamorphic relations on the implementation",
          "Lean 4 proof (check backend model, all functions) + translator (Check API table) + differential correspondence", "5/C19"),
+ "C03": ("Lean theorems: the core checks ignore every parsing option, hence whatever the lazy run returns satisfies the stripped schema (any scope table / depth); strict='filter' leaves no undeclared column; coercion is idempotent, is the identity on conforming data and yields data passing the dtype's own check; fillna/filter idempotent; column-level fixpoint. Differential: returned table vs model of add_missing/filter/defaults/coerce/drop, and the metamorphic oracle on the implementation (re-validate with the stripped schema and with the schema itself), SeriesSchema+index, polars",
+         "Lean 4 proof (parse pipeline model, postcondition, idempotence lemmas) + differential correspondence + metamorphic re-validation", "5/C03"),
 }
 NA = {}
 for i in range(1, 21):
